@@ -1,6 +1,6 @@
 (* C17 - Starving/DAG mutexes: exclusion, no lost wake-up, condition waits. Statements only. *)
 From Coq Require Import List Arith Bool ZArith.
-From Verif.C17_Sync Require Import Model Proofs ProofsDag ProofsWaits.
+From Verif.C17_Sync Require Import Model Proofs ProofsDag ProofsWaits SmView ProofsProgress DagInv DagSteps DagLive.
 Import ListNotations.
 
 (* ---------- StarvingMutex: any number of threads, arbitrary scripts (misuse included), every schedule ---------- *)
@@ -50,6 +50,41 @@ Proof.
   intros t c. destruct t as [|[|[|t]]]; reflexivity.
 Qed.
 
+(* Progress (deadlock / starvation freedom as absence of stuck states): for BALANCED scripts - `balanced sc` (= bal 0 false sc):
+   each thread only unlocks what it holds in the mode it holds it, never locks against its own lock (nested RLocks
+   allowed) and ends holding nothing - any number of threads, every schedule, every reachable state s:
+   (a) if no thread can step, s is final: every thread has run its whole script, nobody is parked, the lock is free;
+   (b) equivalently: as long as some thread has not finished, some thread has an enabled step - in particular
+   (c) whenever a thread is parked in Lock / RLock ("every blocked Lock/RLock is granted once the conflicting holders have
+       released": the holders are never stuck themselves, (d), and after the last release the wake-up is in flight);
+   (d) a ghost holder is a thread that is neither parked nor finished (its script still contains the unlock);
+   (e) no operation ever panics. *)
+Theorem C17_lock_progress : forall (scripts : list (list act)) (sch : list (tid * nat)),
+  Forall balanced scripts ->
+  let s := run sch (init scripts) in
+  (stuck s ->
+     (forall t, finished s t) /\ (forall t, ~ parked s t) /\
+     wa (mx s) = false /\ ra (mx s) = 0 /\ pw (mx s) = 0 /\ rd (mx s) = [] /\ wr (mx s) = []) /\
+  ((exists t, ~ finished s t) -> exists t c, step s t c <> None) /\
+  (forall t, parked s t -> exists u c, step s u c <> None) /\
+  (forall t, 0 < cnt t (rd (mx s)) + cnt t (wr (mx s)) -> ~ parked s t /\ ~ finished s t) /\
+  (forall t c s' r, step_ev s t c = Some (s', r) -> r <> RPanic).
+Proof. exact lock_progress_full. Qed.
+
+(* non-vacuity: balanced scripts (a writer, a reader, a nested reader); a reachable state with a parked writer and a
+   parked reader (premise of (c)); a reachable final state that is stuck (premise of (a)) *)
+Example C17_lock_progress_nonvacuous :
+  let scripts := [[ALock; AUnlock]; [ARLock; ARUnlock]; [ARLock; ARLock; ARUnlock; ARUnlock]; [ALock; AUnlock]] in
+  Forall balanced scripts /\
+  (let s := run [(0, 0); (3, 0); (1, 0)] (init scripts) in parked s 3 /\ parked s 1 /\ wr (mx s) = [0]) /\
+  (let s := run (concat (repeat [(0, 0); (3, 0); (1, 0); (2, 0)] 8)) (init scripts) in
+   stuck s /\ scr s = [[]; []; []; []]).
+Proof.
+  split; [repeat constructor|]. split.
+  - vm_compute. repeat split; auto.
+  - split; [|reflexivity]. intros t c. destruct t as [|[|[|[|[|t]]]]]; reflexivity.
+Qed.
+
 (* Misuse: the wrong unlock panics and the lock state is exactly what it was (all schedules: a panicking step of the
    system leaves the mutex unchanged); Unlock of a mutex nobody holds does not panic and changes no lock state. *)
 Theorem C17_misuse :
@@ -88,16 +123,9 @@ Theorem C17_dag_misuse :
      exists th, nth_error (thr s) t = Some th /\ thr s' = upd t (mkDT None [] (dscr th)) (thr s)).
 Proof. split; [exact dag_misuse_unlock|split; [exact dag_misuse_runlock|exact dag_misuse_step]]. Qed.
 
-(* Deadlock freedom along an acyclic order - PARTIAL: the max-waited-entity argument over the wait-for structure of a
-   stuck state. Proved: if every waited entity is held (per-entity no-lost-wake-up, C17_dag_exclusion + the stuck-state
-   argument of C17_not_stranded), every holder still has operations to run, and a holder only waits for strictly greater
-   entities, then nobody waits. NOT proved: that the wait-for structure of the DAGMutex model satisfies H_unfinished /
-   H_order for scripts that acquire along the order (needs the invariant tying the ghost holder lists to script
-   positions across entity drop/re-registration); that link is exercised by the correspondence check only (balanced
-   ordered scripts complete under every arrival order tried).
-   Full statement: forall scripts sch, ordered_balanced scripts -> (forall t c, dstep (drun sch (dinit scripts)) t c = None) ->
-                   forall th, In th (thr (drun sch (dinit scripts))) -> cur th = None /\ todo th = [] /\ dscr th = []. *)
-Theorem C17_dag_acyclic_partial :
+(* The abstract max-waited-entity argument (core of C17_dag_acyclic): if every waited entity is held, every holder waits
+   itself, and a holder only waits for strictly greater entities, then - finitely many entities - nobody waits. *)
+Theorem C17_dag_acyclic_abstract :
   forall (nthreads : nat) (waits : nat -> option nat) (holds : nat -> nat -> Prop),
   (forall t e, t < nthreads -> waits t = Some e -> exists h, h < nthreads /\ holds h e) ->
   (forall h e, h < nthreads -> holds h e -> exists e', waits h = Some e') ->
@@ -105,6 +133,83 @@ Theorem C17_dag_acyclic_partial :
   forall bound, (forall t e, waits t = Some e -> e < bound) ->
   forall t, t < nthreads -> waits t = None.
 Proof. exact acyclic_no_waiter. Qed.
+
+(* Deadlock freedom along an acyclic order - FULL.  `ordered_balanced sc` (= dbal [] sc): the script acquires entities
+   along the strict order of their ids (Lock id / RLock ids...: every id greater than everything the thread holds, ids
+   strictly increasing), unlocks only what it holds in the mode it holds it (in any order) and ends holding nothing.
+   For any number of threads with such scripts, any number of entities, every schedule, every reachable state s:
+   (a) if no thread can step, every thread is final (outside every mutex, no micro-operation left, script finished);
+   (b) equivalently, while some thread is not final some thread has an enabled step;
+   (c) no operation ever panics. *)
+Theorem C17_dag_acyclic : forall (scripts : list (list dop)) (sch : list (tid * nat)),
+  Forall ordered_balanced scripts ->
+  let s := drun sch (dinit scripts) in
+  ((forall t c, dstep s t c = None) ->
+     forall th, In th (thr s) -> cur th = None /\ todo th = [] /\ dscr th = []) /\
+  ((exists th, In th (thr s) /\ ~ (cur th = None /\ todo th = [] /\ dscr th = [])) -> exists t c, dstep s t c <> None) /\
+  (forall t c s' ev, dstep_ev s t c = Some (s', ev) -> ev = DVStep).
+Proof.
+  intros scripts sch F s. split; [exact (dag_acyclic_all scripts sch F)|].
+  split; [exact (dag_enabled_if_unfinished scripts sch F)|]. intros t c s' ev. exact (dag_no_panic scripts sch t c s' ev F).
+Qed.
+
+(* Consumer counters and ghost holders across entity drop and re-registration (ordered balanced scripts, all schedules):
+   there is a ghost gs - per thread the set gH of (entity, write?) it holds and the list gP of those its current
+   Lock / RLock call has registered and not yet acquired - with
+   - registry well formed: every entry points to an allocated mutex with a positive counter, no two entities share a mutex;
+   - consumer counter of every entity = number of threads that hold it or are acquiring it (0 = not in the registry);
+   - for a live entity id -> mutex r: thread t occurs in r's ghost read (write) holder list exactly as often as it
+     holds id in that mode plus the RUnlock (Unlock) micro-operations on r it has unregistered for and not yet performed;
+     for ANY mutex (dropped ones included) it occurs at least as often as it still owes unlocks;
+   - a thread is in the lists of mutex r (parked / woken / owing a notification) iff r is its current mutex, and once;
+   - thr_core: the entities being acquired (gP) are exactly the lock micro-operations left in todo (on the registered
+     mutexes), the first of them being the mutex the thread is parked / woken in; with gP empty, todo holds unlocks only;
+   - the held set is exactly what the remaining script releases (acq_seq: acquiring gP on top of gH stays ordered). *)
+Theorem C17_dag_consumers : forall (scripts : list (list dop)) (sch : list (tid * nat)),
+  Forall ordered_balanced scripts ->
+  let s := drun sch (dinit scripts) in
+  exists gs : list ghost,
+    length gs = length (thr s) /\
+    ents_wf (ents s) (length (heap s)) /\
+    (forall id, cntof (ents s) id = regsum id gs) /\
+    (forall t id r n, lookup id (ents s) = Some (r, n) ->
+       hR t (hpf (heap s) r) = b2n (has id false (gH (gof gs t))) + owes ARUnlock r (todo (thf (thr s) t)) /\
+       hW t (hpf (heap s) r) = b2n (has id true (gH (gof gs t))) + owes AUnlock r (todo (thf (thr s) t))) /\
+    (forall t r, owes ARUnlock r (todo (thf (thr s) t)) <= hR t (hpf (heap s) r) /\
+                 owes AUnlock r (todo (thf (thr s) t)) <= hW t (hpf (heap s) r)) /\
+    (forall t r, occ t (hpf (heap s) r) <= 1 /\ (0 < occ t (hpf (heap s) r) <-> cur (thf (thr s) t) = Some r)) /\
+    (forall t, thr_core (ents s) (heap s) t (thf (thr s) t) (gof gs t)) /\
+    (forall t, exists H', acq_seq (gH (gof gs t)) (gP (gof gs t)) = Some H' /\ dbal H' (dscr (thf (thr s) t)) = true).
+Proof. exact dag_consumers_all. Qed.
+
+(* non-vacuity: the doc-comment scripts are ordered and balanced; a reachable state in which thread 2 (RLock(0,1)) is parked
+   behind writer 0 on entity 0 with entity 1 registered by two consumers (hypothesis (b)); the final state of
+   C17_dag_example_completes is stuck (hypothesis (a)).  And the order matters: two threads locking 0,1 and 1,0 reach a
+   stuck state that is not final. *)
+Example C17_dag_acyclic_nonvacuous :
+  let scripts := [[DLock 0; DUnlock 0]; [DLock 1; DUnlock 1]; [DRLock [0; 1]; DRUnlock [0; 1]]] in
+  Forall ordered_balanced scripts /\
+  (let s := drun [(0,0);(0,0);(2,0);(2,0);(1,0)] (dinit scripts) in
+   map cur (thr s) = [None; None; Some 0] /\ ents s = [(1, (1, 2)); (0, (0, 2))] /\ rq (hpf (heap s) 0) = [2] /\ wr (hpf (heap s) 0) = [0]) /\
+  (let s := drun [(0,0);(0,0);(2,0);(2,0);(1,0);(1,0);(0,0);(0,0);(0,0);(2,0);(1,0);(1,0);(1,0);(2,0);(2,0);(2,0);(2,0);(2,0)]
+                 (dinit scripts) in
+   (forall t c, dstep s t c = None) /\ ents s = []).
+Proof.
+  split; [repeat constructor|]. split.
+  - vm_compute. repeat split; auto.
+  - split; [|reflexivity]. intros t c. destruct t as [|[|[|[|t]]]]; reflexivity.
+Qed.
+
+Example C17_dag_cycle_deadlocks :
+  let scripts := [[DLock 0; DLock 1; DUnlock 1; DUnlock 0]; [DLock 1; DLock 0; DUnlock 0; DUnlock 1]] in
+  ~ Forall ordered_balanced scripts /\
+  (let s := drun [(0,0);(0,0);(1,0);(1,0);(0,0);(0,0);(1,0);(1,0)] (dinit scripts) in
+   (forall t c, dstep s t c = None) /\ map cur (thr s) = [Some 1; Some 0]).
+Proof.
+  split.
+  - intros F. inversion F as [|x l A B]; subst. inversion B as [|y l' C D]; subst. vm_compute in C. discriminate.
+  - split; [|reflexivity]. intros t c. destruct t as [|[|[|t]]]; reflexivity.
+Qed.
 
 (* the doc-comment example of dagmutex.go runs to completion in the model (ordered, balanced scripts) *)
 Example C17_dag_example_completes :
@@ -183,7 +288,10 @@ Print Assumptions C17_not_stranded.
 Print Assumptions C17_misuse.
 Print Assumptions C17_dag_exclusion.
 Print Assumptions C17_dag_misuse.
-Print Assumptions C17_dag_acyclic_partial.
+Print Assumptions C17_lock_progress.
+Print Assumptions C17_dag_acyclic_abstract.
+Print Assumptions C17_dag_acyclic.
+Print Assumptions C17_dag_consumers.
 Print Assumptions C17_counter_waits.
 Print Assumptions C17_stack_waits.
 Print Assumptions C17_stack_wait_sound.
